@@ -32,7 +32,8 @@ STUB_COMPONENTS = ["leaf processors", "RecordingExecutor", "SimClock/SimUUID", "
 ASSUMPTIONS = ["a torn last line is dropped by any JSONL reader and equals the shorter prefix",
                "the empty prefix (no run known) is skipped - the statement does not define it",
                "lists in verdicts are compared as sets where the model documents no order"]
-REQUIRED_PROBES = ["launch_trace", "failing_run_trace", "directory_mode_multi_file", "prefix_without_pipeline_end", "subset_without_pipeline_start"]
+REQUIRED_PROBES = ["launch_trace", "failing_run_trace", "directory_mode_multi_file", "prefix_without_pipeline_end", "subset_without_pipeline_start",
+                   "two_attempts_sharing_a_launch_id"]
 CONFIG = {
     "quick": {"runs": 2000, "budget_s": 240, "timeout_s": 120},
     "thorough": {"runs": 50000, "budget_s": 1500, "timeout_s": 180},
@@ -59,6 +60,7 @@ def generate(rng: random.Random, tier: str, seed: int) -> dict:
         sc["run_space"] = rsd["run_space"]
         # keys supplied by the run space are removed from --context
         sc["attempt"] = rng.choice([1, 1, 2, 3])
+        sc["retry"] = rng.random() < 0.35        # a second launch with the SAME launch id and the next attempt number
         if rng.random() < 0.5:
             sc["faults"] = [{"site": "executor_pre", "kind": "exception", "node": rng.randrange(nn), "run": rng.randrange(3)}]
     return sc
@@ -78,11 +80,20 @@ def produce(sc: dict, w) -> list[dict]:
         rs_keys.update((b.get("context") or {}).keys())
     harness.write_cli_config(base, "cfg.yaml", trace=harness.trace_cfg(sc["mode"], sc["detail"]), run_space=rs)
     argv = ["run", "cfg.yaml", "--run-space-attempt", str(sc.get("attempt", 1))]
+    if sc.get("retry"):
+        argv += ["--run-space-launch-id", "launch-shared-by-attempts"]
     for k, v in base["context"].items():
         if k not in rs_keys:
             argv += ["--context", f"{k}={json.dumps(v)}"]
     first = len(w.emissions)
     harness.run_cli(argv)
+    if sc.get("retry"):
+        # the retry: same launch id, next attempt, its own driver instance (sequence numbers restart) and output path
+        harness.write_cli_config(base, "cfg2.yaml", trace=harness.trace_cfg(sc["mode"], sc["detail"], "retry"), run_space=rs)
+        argv2 = ["run", "cfg2.yaml"] + argv[2:]
+        argv2[argv2.index("--run-space-attempt") + 1] = str(sc.get("attempt", 1) + 1)
+        w.set_faults([])
+        harness.run_cli(argv2)
     recs, _ = harness.parse_lines(w.emissions[first:])
     return recs
 
@@ -214,6 +225,8 @@ def execute(sc: dict, seed: int) -> dict:
         files = {r["_file"] for r in recs}
         if sc["kind"] == "launch":
             stats["probe.launch_trace"] = 1
+            if sc.get("retry"):
+                stats["probe.two_attempts_sharing_a_launch_id"] = 1
         if sc.get("faults") and any(f for f in w.faults_fired):
             stats["probe.failing_run_trace"] = 1
             for f in w.faults_fired:
@@ -304,6 +317,8 @@ def _diff(a: dict, b: dict) -> tuple[str, str]:
 def shrink_candidates(sc: dict):
     if sc.get("faults"):
         yield dict(sc, faults=[])
+    if sc.get("retry"):
+        yield dict(sc, retry=False)
     if sc["kind"] == "launch":
         yield dict(sc, kind="single")
     base = sc["base"]
